@@ -80,7 +80,8 @@ def _selftest(ctx, files):
 
 def run(ctx):
   cfg = "MC_Schedule_%s.cfg" % ctx.tier
-  inputs, model = fnspec.enumerate_inputs("MC_Schedule", cfg, ctx.workdir)
+  # one state per input, all of them initial states: TLC computes those in a single thread anyway
+  inputs, model = fnspec.enumerate_inputs("MC_Schedule", cfg, ctx.workdir, workers=1)
   ctx.log("TLC enumerated %d inputs (%d distinct states, %.0fs)" % (len(inputs), model["distinct"], model["wall"]))
   extra = {"nshards": NSHARDS, "variants": VARIANTS[ctx.tier], "seed": ctx.seed,
            "nrandom": NRANDOM[ctx.tier], "catalogues": True}
